@@ -62,6 +62,8 @@ pub enum SOp {
     FailDropLock(u8, u8),
     /// touches a `loom::thread_local!` whose value owns a loom Arc of an atomic and updates it in its destructor
     Tls,
+    /// the owner drops the receiver (queued messages are drained by its destructor; later sends get their message back)
+    DropRx,
 }
 
 #[derive(Clone, Debug, PartialEq, Eq, Hash, Serialize, Deserialize)]
@@ -133,6 +135,7 @@ pub struct St {
     rw_held: Vec<u8>,
     token: u8,
     chan: Vec<(u8, VC)>,
+    rx_dropped: bool,
     cvq: Vec<u8>,
     atom: [u8; 2],
     /// every value ever stored with RStore (a relaxed load may legally return an older one)
@@ -194,6 +197,7 @@ impl<'a> Machine<'a> {
             rw_held: vec![0; n],
             token: 0,
             chan: vec![],
+            rx_dropped: false,
             cvq: vec![],
             atom: [0; 2],
             hist: [vec![0], vec![0]],
@@ -410,6 +414,21 @@ impl<'a> Machine<'a> {
                     adv(&mut ns);
                     v.push((ns, true, None));
                 }
+            }
+            SOp::Send(_) if s.rx_dropped => {
+                // the receiver is gone: `send` hands the message back, nothing is queued (and nothing can leak)
+                tick(&mut ns);
+                adv(&mut ns);
+                v.push((ns, true, None));
+            }
+            SOp::DropRx => {
+                for (_, c) in std::mem::take(&mut ns.chan) {
+                    vjoin(&mut ns.vc[t], &c);
+                }
+                ns.rx_dropped = true;
+                tick(&mut ns);
+                adv(&mut ns);
+                v.push((ns, true, None));
             }
             SOp::Send(id) => {
                 let c = ns.vc[t];
@@ -884,8 +903,14 @@ pub fn gen_sync(rng: &mut Rng, t: usize, k: usize, kinds: &str, o: GenOpts) -> S
                         Join(u as u8)
                     }
                     's' => Send((th * 10 + ops.len()) as u8 + 1),
+                    'D' => {
+                        if th != rx_owner || ops.contains(&DropRx) {
+                            continue;
+                        }
+                        DropRx
+                    }
                     'r' => {
-                        if th != rx_owner {
+                        if th != rx_owner || ops.contains(&DropRx) {
                             continue;
                         }
                         if rng.chance(1, 2) {
@@ -1241,7 +1266,7 @@ enum RwGuard {
 
 type RxBack = Option<loom::sync::mpsc::Receiver<u8>>;
 
-fn exec(p: &SProg, t: usize, o: &Objs, rx: Option<&loom::sync::mpsc::Receiver<u8>>, handles: &mut Vec<Option<loom::thread::JoinHandle<RxBack>>>, it: &SM<IterState>, rx_back: &mut Vec<loom::sync::mpsc::Receiver<u8>>) {
+fn exec(p: &SProg, t: usize, o: &Objs, rx: &mut Option<loom::sync::mpsc::Receiver<u8>>, handles: &mut Vec<Option<loom::thread::JoinHandle<RxBack>>>, it: &SM<IterState>, rx_back: &mut Vec<loom::sync::mpsc::Receiver<u8>>) {
     use std::sync::atomic::Ordering::SeqCst;
     let mut guards: [Option<loom::sync::MutexGuard<'static, i64>>; 2] = [None, None];
     let mut rwg: Option<RwGuard> = None;
@@ -1314,10 +1339,10 @@ fn exec(p: &SProg, t: usize, o: &Objs, rx: Option<&loom::sync::mpsc::Receiver<u8
                 let _ = o.tx[t].send(id);
             }
             SOp::Recv => {
-                res = rx.unwrap().recv().map(|x| x as i64).unwrap_or(-2);
+                res = rx.as_ref().unwrap().recv().map(|x| x as i64).unwrap_or(-2);
             }
             SOp::TryRecv => {
-                res = rx.unwrap().try_recv().map(|x| x as i64).unwrap_or(-1);
+                res = rx.as_ref().unwrap().try_recv().map(|x| x as i64).unwrap_or(-1);
             }
             SOp::CvWait => {
                 let g = guards[0].take().unwrap();
@@ -1377,6 +1402,7 @@ fn exec(p: &SProg, t: usize, o: &Objs, rx: Option<&loom::sync::mpsc::Receiver<u8
                 let _on_drop = LockOnDrop(&o.mutex[m as usize]);
                 panic!("{}{}", USER_PANIC_PREFIX, id)
             }
+            SOp::DropRx => *rx = None,
             SOp::Tls => TLS_PROBE.with(|p| *p.0.borrow_mut() = o.tls_atom.clone()),
         }
         let mut s = it.lock().unwrap();
@@ -1509,11 +1535,11 @@ pub fn run_loom(p: &SProg, cfg: &SCfg) -> SRun {
             let mut rx = Some(rx);
             for (t, hd) in (1..n).zip(dups) {
                 let (p3, it4) = (p2.clone(), it3.clone());
-                let my_rx = if t == owner { rx.take() } else { None };
+                let mut my_rx = if t == owner { rx.take() } else { None };
                 let jh = loom::thread::spawn(move || {
                     let mut none: Vec<Option<loom::thread::JoinHandle<RxBack>>> = Vec::new();
                     let mut back = Vec::new();
-                    exec(&p3, t, hd.get(), my_rx.as_ref(), &mut none, &it4, &mut back);
+                    exec(&p3, t, hd.get(), &mut my_rx, &mut none, &it4, &mut back);
                     drop(hd);
                     // the receiver goes back to main: it outlives every sender
                     my_rx
@@ -1522,7 +1548,7 @@ pub fn run_loom(p: &SProg, cfg: &SCfg) -> SRun {
                 handles[t] = Some(jh);
             }
             let mut rx_back: Vec<loom::sync::mpsc::Receiver<u8>> = Vec::new();
-            exec(&p2, 0, h.get(), rx.as_ref(), &mut handles, &it3, &mut rx_back);
+            exec(&p2, 0, h.get(), &mut rx, &mut handles, &it3, &mut rx_back);
             // main joins what it has not joined yet (keeps the receiver alive until every sender is done)
             for t in 1..n {
                 if let Some(jh) = handles[t].take() {
@@ -1531,7 +1557,8 @@ pub fn run_loom(p: &SProg, cfg: &SCfg) -> SRun {
                     }
                 }
             }
-            let rx = rx.or_else(|| rx_back.pop()).expect("the receiver came back");
+            // (None when the program dropped it itself)
+            let rx = rx.or_else(|| rx_back.pop());
             {
                 let c0 = *h.get().mutex[0].lock().unwrap();
                 let c1 = *h.get().mutex[1].lock().unwrap();
